@@ -15,13 +15,13 @@ SPEC = dict(
         "a loud failure (error from Open/ReadAll after the one Repair) is always accepted, as the property states; label counts split loud failures from returned prefixes and byte-granular from sector-granular images",
     ],
     quick=[
-        dict(name="crash", pkg="c05_wal", test="TestWALCrashImages", checks=9, shards=16, timeout=600),
+        dict(name="crash", pkg="c05_wal", test="TestWALCrashImages", checks=10, shards=16, timeout=600),
         dict(name="known", pkg="c05_wal", test="TestKnown.*", checks=1, shards=1),
     ],
     thorough=[
-        dict(name="crash", pkg="c05_wal", test="TestWALCrashImages", checks=36, shards=16, timeout=1500),
+        dict(name="crash", pkg="c05_wal", test="TestWALCrashImages", checks=30, shards=16, timeout=1500),
         dict(name="known", pkg="c05_wal", test="TestKnown.*", checks=1, shards=1),
-        dict(name="fuzzseg", pkg="c05_wal", fuzz="FuzzWALSegment", fuzztime="150s", parallel=6),
+        dict(name="fuzzseg", pkg="c05_wal", fuzz="FuzzWALSegment", fuzztime="120s", parallel=6),
     ],
 )
 
